@@ -42,7 +42,11 @@ func VH_c01_server_fanout() {
 	b := vEstablished(s, vNeighbor(3, 65000, 65000, fams), fams)
 	t1 := vEstablished(s, vNeighbor(4, 65003, 65000, fams), fams)
 	t2 := vEstablished(s, vNeighbor(5, 65000, 65000, fams), fams)
-	peers := []*peer{a, b, t1, t2}
+	c3 := vNeighbor(6, 65000, 65000, fams)
+	c3.RouteReflector.Config.RouteReflectorClient = true
+	c3.RouteReflector.Config.RouteReflectorClusterId, c3.RouteReflector.State.RouteReflectorClusterId = vAddr4(1, 1, 1, 1), vAddr4(1, 1, 1, 1)
+	t3 := vEstablished(s, c3, fams) // route-reflector client: iBGP-learned routes are reflected to it
+	peers := []*peer{a, b, t1, t2, t3}
 	views := make([]c01view, len(peers))
 	prefix := vPrefix4(10, 1, 0, 0, 16)
 	steps := vParam("steps")
@@ -79,8 +83,8 @@ func VH_c01_server_fanout() {
 	}
 	for k, p := range peers {
 		want := best != nil && best.GetSource().Address != p.fsm.pConf.ReadOnly().State.NeighborAddress
-		if want && p.isIBGPPeer() && best.IsIBGP() {
-			want = false
+		if want && p.isIBGPPeer() && best.IsIBGP() && !p.isRouteReflectorClient() {
+			want = false // iBGP-learned routes go to iBGP peers only by reflection to clients
 		}
 		if want && !p.isIBGPPeer() && slices.Contains(best.GetAsList(), p.AS()) {
 			want = false
@@ -94,6 +98,10 @@ func VH_c01_server_fanout() {
 				exp = append([]uint32{65000}, exp...)
 			}
 			vAssert(slices.Equal(got.GetAsList(), exp), "the AS_PATH a peer holds is not the export of the best path's")
+			if p.isRouteReflectorClient() && best.IsIBGP() {
+				vAssert(got.GetOriginatorID().IsValid() && len(got.GetClusterList()) >= 1 && got.GetClusterList()[0] == vAddr4(1, 1, 1, 1), "a reflected route lacks ORIGINATOR_ID or the local cluster id first in its CLUSTER_LIST")
+				vReach("reflected")
+			}
 			vReach("advertised")
 		}
 	}
